@@ -200,7 +200,7 @@ theorem integralDecimal_digits (ex : List UInt8) (h : ∀ d ∈ ex, isDigitB d =
 
 theorem exponentOk_digits (sg ex : List UInt8) (h : ∀ d ∈ ex, isDigitB d = true) (hne : ex ≠ []) :
     exponentOk sg ex = true := by
-  unfold exponentOk
+  unfold exponentOk exponentPrintsIntegral
   rw [integralDecimal_digits ex h hne]
   cases ex with
   | nil => exact absurd rfl hne
